@@ -31,6 +31,14 @@ def forms():
     F["nested_only"] = lambda k: ([I.assign(I.name("z"), I.site(k())),
                                    I.assign(I.tup(I.name("z"), I.tup(I.name("b"), I.name("c"))),
                                             tupd(I.site(k()), tupd(I.site(k()), I.site(k()))))], ["b", "c"])
+    F["nested_first"] = lambda k: ([I.assign(I.tup(I.tup(I.name("a"), I.name("b")), I.name("c")),
+                                             tupd(tupd(I.site(k()), I.site(k())), I.site(k())))], ["a", "b", "c"])
+    F["chained_nested"] = lambda k: ([I.assign([I.name("w"), I.tup(I.tup(I.name("a"), I.name("b")), I.name("c"))],
+                                               tupd(tupd(I.site(k()), I.site(k())), I.site(k())))], ["a", "b", "c"])
+    F["walrus_in_comp"] = lambda k: ([I.assign(I.name("a"), I.site(k())),
+                                      I.assign(I.name("b"), I.comp("q", k(), I.walrus("a", I.site(k())))), ], ["a"])
+    F["walrus_in_genexp_cond"] = lambda k: ([I.assign(I.name("a"), I.site(k())),
+                                             I.expr(I.call(k(), I.comp("q", k(), I.add(I.walrus("a", I.read("q")), I.site(k())))))], ["a"])
     F["starred"] = lambda k: ([I.assign(I.tup(I.name("a"), I.star("b")), I.useq(k()))], ["a"])
     F["attr"] = lambda k: ([I.assign(I.name("o"), I.obj(k())), I.assign(I.attr("o", "x"), I.site(k()))], [])
     F["subscript"] = lambda k: ([I.assign(I.name("o"), I.obj(k())), I.assign(I.sub("o", I.site(k())), I.site(k()))], [])
